@@ -63,5 +63,7 @@ DELIVERABLES (for k = 1, 2), all under /tmp/mut/{pid}/ :
                      "needs_to_manifest": "...the specific input/sequence/configuration needed...",
                      "why_tests_pass": "...", "ran": ["commands you ran and their outcome"]}}
 Finally leave the worktree CLEAN (git checkout -- . inside the worktree) so that both patches apply to it independently.
+Use only `git apply`, `git diff`, `git status` and `git checkout -- .` in the worktree; never `git stash`, `git commit`,
+`git reset` or anything that touches refs (the worktree shares its repository with other people's work).
 Verify everything yourself before finishing: for each k: clean tree -> demo passes; apply patch -> 68 tests pass, demo
 fails; revert. Report briefly what you did. If you truly cannot find a second change, deliver one.""")
